@@ -267,6 +267,9 @@ def run(ctx):
   ctx.build_property(gen_needed=['Src_init', 'Src_query'])
   ctor_checks(ctx)
   clone_checks(ctx)
+  # a value given through set_params is the value used: the preprocessor after an earlier fit (shared with C17)
+  from props.c17 import preprocessor_history_lane
+  preprocessor_history_lane(ctx)
   not_fitted_checks(ctx)
   pickle_checks(ctx, ctx.tier == 'thorough')
   pickle_preprocessor_checks(ctx)
